@@ -122,6 +122,32 @@ CHECKS = {
                 "edges of the effective period.",
         "note": "TZ=UTC; time values with hundredths 0 only; same-priority overlapping exceptions and unsorted lists are not generated",
     },
+    "C04": {
+        "level": "fault_enumeration",
+        "design_ref": "DESIGN.md 3 C04",
+        "technique": "runtime monitor: fault-injecting virtual LAN + virtual clock around two real stacks; counting oracles over boundary events, scheduler heap and a gc census of transaction objects",
+        "text": "One confirmed transaction at a time is run between a real client stack (Application.request and IOCB "
+                "paths) and a real server stack over a LAN that drops, duplicates, delays or holds frames.  For each "
+                "configuration the fault-free trace is recorded, then every single fault at every frame, fault pairs, "
+                "random plans, silence from frame k and one-way silence.  Monitors: exactly one outcome event per "
+                "request, within a bound computed from the configured timeouts (virtual time), afterwards no live "
+                "transaction object anywhere (gc census), no transaction timer in the scheduler, no IOCB queue entry, "
+                "and no later frame from the requester carrying that invoke id (independent APCI decoder).",
+        "note": "virtual LAN instead of UDP sockets; the bound is deliberately generous (bounded-progress restatement of 'eventually')",
+    },
+    "C05": {
+        "level": "fault_enumeration",
+        "design_ref": "DESIGN.md 3 C05",
+        "technique": "runtime monitor: byte-equality oracle at the application boundary + wire observer (independent decoder) for sequence/more-follows/window rules + single-fault-repaired predicate",
+        "text": "Same runner as C04 with payload-carrying private transfers: every payload that reaches an application "
+                "is compared octet for octet with what was submitted (unique token + position dependent content), for "
+                "lengths around every segment boundary, windows 1..8 on each side and transfers of 256/257/300 (600) "
+                "segments; a wire observer checks consecutive sequence numbers modulo 256, no fresh segment after the "
+                "final one and no more unacknowledged segments than the granted window; every single drop, duplicate, "
+                "delay or hold-behind-next at every frame must still end in the acknowledgement with the exact payload; "
+                "random multi-fault plans must end in exact payload or abort.",
+        "note": "window discipline judged only in runs with drop/duplicate faults; a request retried after the request timeout may legitimately be executed twice",
+    },
 }
 
 NOT_APPLICABLE = {pid: _PENDING for pid in ("C%02d" % i for i in range(1, 21)) if pid not in CHECKS}
